@@ -390,6 +390,14 @@ def task_cfg(args):
                     out, over, excs = deliver(stream, tuple(c for c in cuts if 0 < c < len(stream)))
                     nd += 1
                     obs = (tuple(c[0] for c in out[0]), out[1], out[2], out[3])
+                    # what is reported for a ROUTE-REFRESH names the message type that was on the wire (5 or 128) and its fields
+                    for cbname, payload in out[0]:
+                        if cbname == 'route_refresh_received':
+                            want = ((('afi', 1), ('res', 0), ('safi', 1)), f[18])
+                            have = payload
+                            if have != want:
+                                v.append(('C04|b|the ROUTE-REFRESH reported to the application is not the one received (type / fields)',
+                                          {'cfg': cfg, 'frame': name, 'reported': repr(payload), 'received': repr(want)}))
                     if ci == 0:
                         base[(name, cuts)] = obs
                     elif obs != base[(name, cuts)]:
